@@ -124,19 +124,26 @@ Example C21_date_normalisation_nonvacuous :
   fn_date 2024 14 (-3) = FNum 45685 /\ of_serial 45685 = Ok (2025, 1, 28).
 Proof. vm_compute. split; reflexivity. Qed.
 
-(* "DATE always returns a serial or an error value" is REFUTED by the faithful model: chrono's
-   `NaiveDate + Months` / `+ Days` abort when the intermediate date leaves chrono's own range,
-   and the code checks its range only afterwards *)
-Theorem C21_date_total_refuted :
-  exists y m d, 0 <= y /\ fn_date y m d = FPanic.
-Proof. exists 2000, 4000000, 1. split; [lia | exact (proj1 fn_date_can_panic)]. Qed.
-Print Assumptions C21_date_total_refuted.
+(* DATE never aborts: for ALL integer arguments the result is a serial of the supported range
+   or the out-of-range error (#NUM!) *)
+Theorem C21_date_total :
+  forall y m d,
+  (exists s, fn_date y m d = FNum s /\ 1 <= s <= 2958465) \/ fn_date y m d = FErrNum.
+Proof. exact fn_date_total. Qed.
+Print Assumptions C21_date_total.
 
-(* ... and holds for every month/day argument of less than astronomic size *)
-Theorem C21_date_total_partial :
-  forall y m d, -3000000 <= m <= 3000000 -> -90000000 <= d <= 90000000 -> fn_date y m d <> FPanic.
-Proof. exact fn_date_no_panic. Qed.
-Print Assumptions C21_date_total_partial.
+Theorem C21_date_never_panics :
+  forall y m d, fn_date y m d <> FPanic /\ fn_date y m d <> FErrValue.
+Proof. exact fn_date_never_panics. Qed.
+Print Assumptions C21_date_never_panics.
+
+(* the witnesses of the repaired finding F01 are plain #NUM! errors now *)
+Theorem C21_date_astronomic_arguments :
+  fn_date 2000 4000000 1 = FErrNum /\ fn_date 2000 1 100000000 = FErrNum /\
+  fn_date 1900 (-4000000) 1 = FErrNum /\ fn_date 9999 12 (-100000000) = FErrNum /\
+  fn_date 2000 (-2147483648) 1 = FErrNum /\ fn_date 2000 1 (-2147483648) = FErrNum.
+Proof. exact fn_date_astronomic. Qed.
+Print Assumptions C21_date_astronomic_arguments.
 
 (* ---- "yyyy-mm-dd" text and typed ISO dates ------------------------------------------------------------ *)
 
